@@ -481,7 +481,13 @@ func runC11(t *testing.T, sc *Scenario) Result {
 		}
 	}
 	for _, p := range pwds {
-		if !strings.HasPrefix(p, "/") || path.Clean(p) != strings.TrimRight(p, "/") && p != "/" || strings.Contains(p, "..") {
+		dotdot := false
+		for _, comp := range strings.Split(p, "/") {
+			if comp == ".." { // (a directory may legitimately be NAMED "..\\x" or "..;": only a dot-dot component leaves)
+				dotdot = true
+			}
+		}
+		if !strings.HasPrefix(p, "/") || path.Clean(p) != strings.TrimRight(p, "/") && p != "/" || dotdot {
 			res.Violate("pwd-outside-root", "ftp", fmt.Sprintf("PWD reported %q", p))
 			return res
 		}
